@@ -22,6 +22,9 @@ pub const OUTSIDE: &[(&str, &str)] = &[
     ("sibling/deep/nmq05z_inner.st", "FUNCTION Mkq05z : INT\nMkq05z := 5;\nEND_FUNCTION\n"),
     ("sibling/.sibhidden", "mkq06z\n"),
     ("ws/peer.st", "PROGRAM Mkq07z\nEND_PROGRAM\n"),
+    // a sibling whose NAME starts with the project directory's name: a string-prefix test on paths is fooled by it
+    ("ws/proj-secrets/nmq08z_vault.st", "PROGRAM Mkq08z\nVAR\n  v : INT;\nEND_VAR\nv := SharedFn(3);\nEND_PROGRAM\n"),
+    ("ws/proj-secrets/keys.txt", "vault keys mkq09z\n"),
 ];
 
 /// Default project content (the generator picks from it; the case lists the
@@ -42,6 +45,8 @@ pub fn default_project_files() -> Vec<Json> {
         f(".hidden/nmq22z_x.st", "PROGRAM Mkq22z\nEND_PROGRAM\n"),
         f("src/.nmq23z_inner.st", "PROGRAM Mkq23z\nEND_PROGRAM\n"),
         l("outdir", "../../sibling"),
+        l("vault", "../proj-secrets"),
+        l("vaultfile.st", "../proj-secrets/nmq08z_vault.st"),
         l("link.st", "../../secret.st"),
         l("abslink.st", "${S}/secret.st"),
         l("alias.st", ".secret"),
